@@ -11,7 +11,8 @@ WIT = {'ST': 'x', 'ID': 'A', 'IS': 'A', 'NM': '1', 'SI': '1', 'DT': '20200101', 
 
 TYPED = {
     'NM': ['0', '1', '-1', '12.5', '-0.25', '100', '3.14159', '42', '0.5', '1000000', '0.0000001', '-0.00000025',
-           '10.50', '1.0', '0.000010', '12345678901234.5'],
+           '10.50', '1.0', '0.000010', '12345678901234.5', '0.0000000', '-0.00000000', '0.000000000000', '0.0', '-0',
+           '00.00000001'[1:]],
     'SI': ['0', '1', '2', '17', '999', '9999'],
     'DT': ['2020', '202002', '20200229', '19991231', '1000', '99991231', '20240101'],
     'DTM': ['2020', '202002', '20200229', '2020022913', '202002291359', '20200229135901', '20200229135901.1',
